@@ -12,7 +12,7 @@ import (
 // closed formulas over spec functions.
 func (V *Verifier) pureEnc() *fnEnc {
 	e := &fnEnc{V: V, lazySet: map[string]bool{}, vals: map[ssa.Value]string{}, tuples: map[ssa.Value][]string{},
-		anchors: map[string]int{}, params: map[string]tval{}}
+		anchors: map[string]int{}, params: map[string]tval{}, specConsts: map[string]string{}}
 	st := &state{reach: "true", heap: map[string]string{}, next: "0"}
 	e.entry = st
 	return e
